@@ -86,10 +86,20 @@ func (r *Rand) B32() uint32 {
 		return 0x80000000
 	case 5:
 		return uint32(1) << uint(r.Intn(32))
+	case 6:
+		if r.Intn(3) == 0 {
+			return MagicWords[r.Intn(len(MagicWords))]
+		}
+		return r.U32()
 	default:
 		return r.U32()
 	}
 }
+
+// MagicWords are 32-bit values that look like something a decoder searches for: the REMB
+// identifier and header words of every packet type. As field values (an SSRC that happens to be
+// "REMB") they must be as inert as any other number.
+var MagicWords = []uint32{0x52454D42, 0x80C80006, 0x81C90007, 0x81CA0002, 0x81CB0001, 0x80CC0002, 0x81CD0003, 0x8FCD0005, 0x8BCD0003, 0x81CE0002, 0x82CE0003, 0x84CE0004, 0x8FCE0004, 0x80CF0002}
 
 // B16 is a boundary-biased 16-bit value.
 func (r *Rand) B16() uint16 {
